@@ -150,9 +150,10 @@ def run(ck):
                                   "observed_calls": [e["name"] for e in tr["ev"]]})
     nsteps = 30 if quick else 400
     pairs = 5 if quick else 8
-    for _ in range(nsteps):
+    for step_i in range(nsteps):
         seed = rng.randrange(10 ** 6)
-        got = guarded(ck, reported, "public steps", seed, pairs, lambda: record_steps(em, seed, pairs))
+        per_class = step_i % 3 == 2       # a third of the runs call the E-steps once per class, as fit() does for Dask input
+        got = guarded(ck, reported, "public steps", seed, pairs, lambda: record_steps(em, seed, pairs, per_class))
         if got is None:
             continue
         rts, me = got
@@ -274,16 +275,28 @@ def bare(trs):
     return [{k: t[k] for k in ("kind", "cap", "thr", "dir", "ev")} for t in trs]
 
 
-def record_steps(em, seed, P):
-    """The public per-phase steps, P E/M pairs per phase, the phase marginal after every pair."""
+def record_steps(em, seed, P, per_class=False):
+    """The public per-phase steps, P E/M pairs per phase, the phase marginal after every pair.  With per_class the
+    E-steps are called once per class on that class's statistics and the list of results is handed to the M-step,
+    the way fit() proceeds for Dask input."""
     mach, X, y, nspc, o, meta = problem(em, seed, 1)
-    meta = dict(meta, driver="public steps", pairs=P)
+    meta = dict(meta, driver="public steps, one E-step per class" if per_class else "public steps", pairs=P)
+    ya = np.asarray(y)
+
+    def esteps(fn, **kw):
+        if not per_class:
+            return [fn(X, y, nspc, **kw)]
+        res = []
+        for k in sorted(set(ya.tolist())):
+            idx = np.where(ya == k)[0]
+            res.append(fn([X[i] for i in idx], ya[idx], nspc, **kw))
+        return res
     shp = (np.shape(mach.V), np.shape(mach.U), np.shape(mach.D))
     n_acc, f_acc = mach.initialize(X, y, len(nspc))
     out = []
     vals, valid = [o.marg_V(np.asarray(mach.V, dtype=float))], []
     for _ in range(P):
-        mach.m_step_v([mach.e_step_v(X, y, nspc, n_acc, f_acc)])
+        mach.m_step_v(esteps(mach.e_step_v, n_acc=n_acc, f_acc=f_acc))
         valid.append(shapes_ok(mach, shp))
         vals.append(o.marg_V(np.asarray(mach.V, dtype=float)) if valid[-1] else float("nan"))
     out.append(rank_trace("jfa-V", vals, valid))
@@ -292,7 +305,7 @@ def record_steps(em, seed, P):
     yy = np.asarray(ly, dtype=float)
     vals, valid = [o.marg_U(np.asarray(mach.U, dtype=float), V, yy)], []
     for _ in range(P):
-        mach.m_step_u([mach.e_step_u(X, y, nspc, ly)])
+        mach.m_step_u(esteps(mach.e_step_u, latent_y=ly))
         valid.append(shapes_ok(mach, shp))
         vals.append(o.marg_U(np.asarray(mach.U, dtype=float), V, yy) if valid[-1] else float("nan"))
     out.append(rank_trace("jfa-U", vals, valid))
@@ -301,7 +314,7 @@ def record_steps(em, seed, P):
     xx = [np.asarray(a, dtype=float) for a in lx]
     vals, valid = [o.marg_D(np.asarray(mach.D, dtype=float), U, V, yy, xx)], []
     for _ in range(P):
-        mach.m_step_d([mach.e_step_d(X, y, nspc, lx, ly, n_acc, f_acc)])
+        mach.m_step_d(esteps(mach.e_step_d, latent_x=lx, latent_y=ly, n_acc=n_acc, f_acc=f_acc))
         valid.append(shapes_ok(mach, shp))
         vals.append(o.marg_D(np.asarray(mach.D, dtype=float), U, V, yy, xx) if valid[-1] else float("nan"))
     out.append(rank_trace("jfa-D", vals, valid))
@@ -398,9 +411,9 @@ def replay_case(ck, em):
                                                     "state": case["state"], "mismatch": verdict, "detail": detail})
         return
     me = case.get("meta") or {}
-    if me.get("driver") == "public steps":
+    if str(me.get("driver", "")).startswith("public steps"):
         got = guarded(ck, reported, "public steps", me["seed"], me["pairs"],
-                      lambda: record_steps(em, me["seed"], me["pairs"]))
+                      lambda: record_steps(em, me["seed"], me["pairs"], "per class" in me["driver"]))
         if got is None:
             return
         rts, meta = got
